@@ -1519,13 +1519,25 @@ fn interpolate_string(
 
     let mut last_slot_end = 0;
 
+    // The lexer gives slot boundaries as character offsets, which differ from
+    // byte offsets when `s` contains multi-byte characters.
+    let byte_offset = |char_offset: usize| {
+        s.char_indices()
+            .nth(char_offset)
+            .map_or(s.len(), |(i, _)| i)
+    };
+
     for cur_slot in interpolation_slots {
         let (cur_slot_start, cur_slot_end) = cur_slot;
-        result.push(s[last_slot_end .. *cur_slot_start].to_string());
+        result.push(
+            s[byte_offset(last_slot_end) .. byte_offset(*cur_slot_start)]
+                .to_string(),
+        );
 
         // We shorten the slot to skip the delimiters (`${` at the start and
         // `}` at the end).
-        let directive = &s[(cur_slot_start+2) .. (cur_slot_end-1)];
+        let directive =
+            &s[byte_offset(cur_slot_start+2) .. byte_offset(cur_slot_end-1)];
 
         let slot_col = col + cur_slot_start + 4;
 
@@ -1579,7 +1591,7 @@ fn interpolate_string(
         last_slot_end = *cur_slot_end;
     }
 
-    result.push(s[last_slot_end ..].to_string());
+    result.push(s[byte_offset(last_slot_end) ..].to_string());
 
     Ok(result.join(""))
 }
